@@ -757,13 +757,9 @@ Lemma so_connect : sect_ok 1 (sprops_ok 1) connect_map false NoSub.
 Proof. apply sect_ok_std; vm_compute; reflexivity. Qed.
 Lemma so_will : sect_ok 100 (sprops_ok 100) will_map true NoSub.
 Proof. apply sect_ok_std; vm_compute; reflexivity. Qed.
-(* DISCONNECT: the library knows only user properties there (D13) *)
-Definition disc_ps (ps : list aprop) : Prop := sprops_ok 14 ps /\ Forall (fun ap => ap_id ap = 38) ps.
-Lemma so_disconnect : sect_ok 14 disc_ps [] false NoSub.
-Proof.
-  split; try reflexivity. intros ps [Hps H38].
-  split; [apply disc_props_ok; assumption|apply (sprops_keyed 14); exact Hps].
-Qed.
+Definition disc_ps (ps : list aprop) : Prop := sprops_ok 14 ps.
+Lemma so_disconnect : sect_ok 14 disc_ps disconnect_map false NoSub.
+Proof. unfold disc_ps. apply sect_ok_std; vm_compute; reflexivity. Qed.
 
 (* ------------------------------------------------------------------ *)
 (* CONNACK *)
@@ -857,11 +853,12 @@ Theorem chain_disconnect form rc ps : rc < 256 -> disc_frame_ok 14 form rc ps ->
   cchain (dec_of KDisconnect) (fresh_of (ctor_fixed KDisconnect)) 0 (disc_fields 14 form rc ps).
 Proof.
   intros Hrc Hform. unfold disc_fields. cbn [N.eqb Pos.eqb].
-  apply (chain_disc_gen KDisconnect 14 disc_ps []); try reflexivity; try exact Hrc.
+  apply (chain_disc_gen KDisconnect 14 disc_ps disconnect_map); try reflexivity; try exact Hrc.
   - exact so_disconnect.
-  - intros id r w Hl. discriminate Hl.
-  - destruct (disc_form_cases _ _ _ _ Hform) as [[-> _]|[[-> _]|[-> [Hps [HR H38]]]]]; try exact I.
-    split; [split; [exact Hps|apply H38; reflexivity]|exact HR].
+  - intros id r w Hl. apply lookup_in_map in Hl. unfold disconnect_map in Hl. cbn [In] in Hl.
+    repeat (destruct Hl as [Hl|Hl]; [injection Hl as _ <- _; reflexivity|]). contradiction.
+  - destruct (disc_form_cases _ _ _ _ Hform) as [[-> _]|[[-> _]|[-> [Hps HR]]]]; try exact I.
+    split; assumption.
 Qed.
 
 Theorem chain_auth form rc ps : rc < 256 -> disc_frame_ok 15 form rc ps ->
@@ -872,7 +869,7 @@ Proof.
   - exact so_auth.
   - intros id r w Hl. apply lookup_in_map in Hl. unfold auth_map in Hl. cbn [In] in Hl.
     repeat (destruct Hl as [Hl|Hl]; [injection Hl as _ <- _; reflexivity|]). contradiction.
-  - destruct (disc_form_cases _ _ _ _ Hform) as [[-> _]|[[-> _]|[-> [Hps [HR _]]]]]; try exact I.
+  - destruct (disc_form_cases _ _ _ _ Hform) as [[-> _]|[[-> _]|[-> [Hps HR]]]]; try exact I.
     split; assumption.
 Qed.
 
